@@ -123,6 +123,17 @@ def run(ctx) -> None:
     from . import C15
     ctx.step(AD.month_clamp_order, ctx)
     ctx.step(C15.clamp_dependencies, ctx)
+    # every element is start.add()/subtract() of calendar units: the carry chain of add_duration (a 12-month carry into the year keeps
+    # its sign - an inverted interval stepping by months stays monotone and ends) and the way DateTime.add re-creates the wall time
+    ctx.step(AD.carry_blocks, ctx)
+    ctx.step(AD.datetime_add_shape, ctx)
+    # ... from the start / up to the end the interval was built with: Interval.__init__ copies both bounds field by field
+    from ..rules import recon
+
+    def _bounds():
+        for s_ in recon.sites_in(m, ["Interval.__init__"]):
+            recon.check_site(ctx, s_)
+    ctx.step(_bounds)
     ctx.expect_min("RANGE", 10)
     ctx.expect_min("ORDER.clamp", 5)
     _ = un
